@@ -141,7 +141,28 @@ def traced_container_fails(case):
     return None
 
 
+def traced_roundtrip_fails(case):
+    """the round trip symvec(vecsym(v), UPLO) recorded on the tracer: lossless in forward mode, and its reverse sweep hands the
+    seed back unchanged (the round trip is the identity map, so is its adjoint) -- for every storage convention"""
+    v0, wb = np.array(case['v']), np.array(case['wbar'])
+    for uplo in ('F', 'L', 'U'):
+        cg = algopy.CGraph()
+        fv = algopy.Function(UTPM(v0.copy()))
+        fw = algopy.symvec(algopy.vecsym(fv), uplo)
+        cg.trace_off()
+        cg.independentFunctionList = [fv]
+        cg.dependentFunctionList = [fw]
+        if not np.array_equal(fw.x.data, v0):
+            return 'traced-roundtrip-forward: symvec(vecsym(v), %s) is not v on the tracer' % uplo
+        cg.pullback([UTPM(wb.copy())])
+        if not close(fv.xbar.data, wb, 1e-12):
+            return 'traced-roundtrip-reverse: the reverse sweep of symvec(vecsym(v), %s) does not return the seed (max diff %s)' % (uplo, maxdiff(fv.xbar.data, wb))
+    return None
+
+
 def run_one(ctx, case):
+    if case['op'] == 'traced-roundtrip':
+        return traced_roundtrip_fails(case)
     if case['op'] == 'traced-container':
         return traced_container_fails(case)
     k = case['op']
@@ -430,6 +451,17 @@ def run(ctx):
             f = 'exception-%s: %s' % (case['op'], type(ex).__name__ + ':' + str(ex)[:100])
         if f:
             ctx.report(case, 'failure', f)
+    for L_ in (3, 6):
+        for D_, P_ in ((1, 1), (2, 2)):
+            case = {'op': 'traced-roundtrip', 'D': D_, 'P': P_, 'v': rand_coeffs(ctx.rng, (D_, P_, L_), -2, 2), 'wbar': rand_coeffs(ctx.rng, (D_, P_, L_), -2, 2) + 0.125}
+            ctx.evaluations += 1
+            ctx.count('op=traced-roundtrip')
+            try:
+                f = run_one(ctx, case)
+            except Exception as ex:
+                f = 'exception-%s: %s' % (case['op'], type(ex).__name__ + ':' + str(ex)[:100])
+            if f:
+                ctx.report(case, 'failure', f)
     for kind in ('plain', 'const-first'):
         for D_, P_ in ((1, 1), (3, 2)):
             case = {'op': 'traced-container', 'kind': kind, 'D': D_, 'P': P_, 'x': rand_coeffs(ctx.rng, (D_, P_, 3), -2, 2)}
